@@ -238,12 +238,21 @@ struct State {
 fn step(s: &mut State, t: &mut Tape) -> Result<Option<&'static str>, Failure> {
     let mut cs = vec![];
     containers(&s.model, &vec![], &mut cs);
-    let (path, kind) = cs[t.below(cs.len())].clone();
+    let (path, _model_kind) = cs[t.below(cs.len())].clone();
     let hf = |m: &str| harness_fault(format!("{m} at {}", path_str(&path)));
+    // what the container is in the document (a dotted table is a Table in a body and an
+    // InlineTable inside a value; after conversions only the document knows)
+    let kind = match nav_mut(&mut s.doc, &path).ok_or_else(|| hf("doc nav"))? {
+        Cur::Item(Item::Table(_)) | Cur::Table(_) => CKind::Table,
+        Cur::Item(Item::Value(Value::InlineTable(_))) | Cur::Value(Value::InlineTable(_)) => CKind::Inline,
+        Cur::Item(Item::Value(Value::Array(_))) | Cur::Value(Value::Array(_)) => CKind::Array,
+        Cur::Item(Item::ArrayOfTables(_)) => CKind::Aot,
+        _ => return Err(hf("doc container kind")),
+    };
     match kind {
         CKind::Table => {
             let keys: Vec<String> = mtable(mnav(&mut s.model, &path).ok_or_else(|| hf("model nav"))?).ok_or_else(|| hf("model table"))?.entries.iter().map(|e| e.0.clone()).collect();
-            let op = t.below(10);
+            let op = t.below(13);
             let table = as_table(nav_mut(&mut s.doc, &path).ok_or_else(|| hf("doc nav"))?).ok_or_else(|| hf("doc table"))?;
             let mt = mtable(mnav(&mut s.model, &path).unwrap()).unwrap();
             match op {
@@ -337,6 +346,115 @@ fn step(s: &mut State, t: &mut Tape) -> Result<Option<&'static str>, Failure> {
                     // the lines are kept, their order changes: fragments stay, order is re-derived
                     s.log.push(format!("{}.sort_values()", path_str(&path)));
                     Ok(Some("table.sort_values"))
+                }
+                10 | 11 | 12 => {
+                    // conversions between inline and standard forms of one entry
+                    let cand: Vec<String> = mt
+                        .entries
+                        .iter()
+                        .filter(|(_, n)| match (op, n) {
+                            (10, Node::Table(x)) => x.kind != TblKind::Inline,
+                            (10, Node::Aot(_)) => true,
+                            (11, Node::Table(x)) => x.kind == TblKind::Inline,
+                            (12, Node::Array(a)) => !a.is_empty() && a.iter().all(|e| matches!(e, Node::Table(_))),
+                            _ => false,
+                        })
+                        .map(|e| e.0.clone())
+                        .collect();
+                    if cand.is_empty() {
+                        return Ok(None);
+                    }
+                    let k = cand[t.below(cand.len())].clone();
+                    if op != 10 {
+                        // known finding F21: the key of a `k = {..}` entry keeps its line decoration
+                        // (blank / comment lines before it), which is then printed inside the header
+                        // brackets. Try the conversion on a copy first.
+                        let decorated = table.key(&k).and_then(|key| key.leaf_decor().prefix().and_then(|p| p.as_str()).map(|p| p.contains('\n') || p.contains('#'))).unwrap_or(false);
+                        if decorated {
+                            let mut probe = table.clone();
+                            if let Some(it) = probe.get_mut(&k) {
+                                let taken = std::mem::take(it);
+                                *it = if op == 11 {
+                                    match taken.into_table() {
+                                        Ok(tb) => Item::Table(tb),
+                                        Err(i) => i,
+                                    }
+                                } else {
+                                    match taken.into_array_of_tables() {
+                                        Ok(a) => Item::ArrayOfTables(a),
+                                        Err(i) => i,
+                                    }
+                                };
+                            }
+                            let mut d = DocumentMut::new();
+                            *d.as_table_mut() = probe;
+                            if d.to_string().parse::<DocumentMut>().is_err() && KNOWN_F21.load(std::sync::atomic::Ordering::Relaxed) {
+                                return Ok(Some("known.F21"));
+                            }
+                        }
+                    }
+                    let item = table.get_mut(&k).ok_or_else(|| hf("entry"))?;
+                    let idx = mt.index_of(&k).unwrap();
+                    let label = match op {
+                        10 => {
+                            item.make_value();
+                            mt.entries[idx].1 = to_value_form(&mt.entries[idx].1);
+                            // sort_values reordered the map (sections included) of this table and
+                            // its dotted tables; the property does not pin where sections sort, and
+                            // the conversion now makes that order visible: compare as a set below it
+                            let mut ep = path.clone();
+                            ep.push(Seg::Key(k.clone()));
+                            if s.sorted.iter().any(|q| (ep.len() >= q.len() && ep[..q.len()] == q[..]) || (q.len() >= ep.len() && q[..ep.len()] == ep[..])) {
+                                mark_deep(&mut mt.entries[idx].1);
+                            }
+                            "entry.make_value"
+                        }
+                        11 => {
+                            let it = std::mem::take(item);
+                            *item = match it.into_table() {
+                                Ok(tb) => Item::Table(tb),
+                                Err(i) => i,
+                            };
+                            if let Node::Table(x) = &mut mt.entries[idx].1 {
+                                x.kind = TblKind::Std;
+                            }
+                            "entry.into_table"
+                        }
+                        _ => {
+                            let it = std::mem::take(item);
+                            *item = match it.into_array_of_tables() {
+                                Ok(a) => Item::ArrayOfTables(a),
+                                Err(i) => i,
+                            };
+                            if let Node::Array(a) = &mt.entries[idx].1 {
+                                let els: Vec<Tbl> = a
+                                    .iter()
+                                    .map(|e| match e {
+                                        Node::Table(x) => {
+                                            let mut y = x.clone();
+                                            y.kind = TblKind::AotElem;
+                                            y
+                                        }
+                                        _ => unreachable!(),
+                                    })
+                                    .collect();
+                                mt.entries[idx].1 = Node::Aot(els);
+                            }
+                            "entry.into_array_of_tables"
+                        }
+                    };
+                    // which syntactic form each nested table now has (inline, still dotted, ...) is
+                    // observable API state: take the *kinds* (never the data) from the document
+                    if let Some(fresh) = table.get(&k).and_then(model::from_edit_item) {
+                        copy_kinds(&mut mt.entries[idx].1, &fresh);
+                    }
+                    let mut p = path.clone();
+                    p.push(Seg::Key(k.clone()));
+                    touch(&mut s.frags, &p);
+                    s.sorted.retain(|q| !(q.len() >= p.len() && q[..p.len()] == p[..]));
+                    s.moved_aot_parents.retain(|q| !(q.len() >= p.len() && q[..p.len()] == p[..]));
+                    s.log.push(format!("{}.{label}({k:?})", path_str(&path)));
+                    Ok(Some(label))
                 }
                 9 => {
                     // auto-vivification probe: mutable indexing without assigning creates a
@@ -550,6 +668,24 @@ fn step(s: &mut State, t: &mut Tape) -> Result<Option<&'static str>, Failure> {
     }
 }
 
+/// Item::make_value on a table / array of tables: it becomes an inline table / array; its
+/// children that are not values yet (tables with headers, dotted tables of a body, arrays of
+/// tables) are converted recursively, children that already are values stay exactly as they are
+fn to_value_form(n: &Node) -> Node {
+    match n {
+        Node::Table(t) if t.kind == TblKind::Inline => n.clone(),
+        Node::Table(t) => {
+            let mut out = Tbl::new(TblKind::Inline);
+            for (k, v) in &t.entries {
+                out.entries.push((k.clone(), if is_ph(v) { v.clone() } else { to_value_form(v) }));
+            }
+            Node::Table(out)
+        }
+        Node::Aot(a) => Node::Array(a.iter().map(|t| to_value_form(&Node::Table(t.clone()))).collect()),
+        o => o.clone(),
+    }
+}
+
 /// is `leaf` a line of the body of the table at `tbl` (i.e. reached through dotted tables only)?
 fn lines_of_table(model: &Tbl, tbl: &Path, leaf: &Path) -> bool {
     let mut m = model.clone();
@@ -752,6 +888,50 @@ fn check_state(s: &State, start_text: &str) -> Result<(), Failure> {
     Ok(())
 }
 
+fn copy_kinds(m: &mut Node, d: &Node) {
+    match (m, d) {
+        (Node::Table(a), Node::Table(b)) => {
+            a.kind = b.kind;
+            for (k, c) in a.entries.iter_mut() {
+                if let Some(dc) = b.get(k) {
+                    copy_kinds(c, dc);
+                }
+            }
+        }
+        (Node::Array(a), Node::Array(b)) => {
+            for (x, y) in a.iter_mut().zip(b.iter()) {
+                copy_kinds(x, y);
+            }
+        }
+        (Node::Aot(a), Node::Aot(b)) => {
+            for (x, y) in a.iter_mut().zip(b.iter()) {
+                x.kind = y.kind;
+                for (k, c) in x.entries.iter_mut() {
+                    if let Some(dc) = y.get(k) {
+                        copy_kinds(c, dc);
+                    }
+                }
+            }
+        }
+        _ => {}
+    }
+}
+
+fn mark_deep(n: &mut Node) {
+    match n {
+        Node::Table(t) => {
+            t.order_ambiguous = true;
+            t.entries.iter_mut().for_each(|(_, c)| mark_deep(c));
+        }
+        Node::Array(a) => a.iter_mut().for_each(mark_deep),
+        Node::Aot(a) => a.iter_mut().for_each(|t| {
+            t.order_ambiguous = true;
+            t.entries.iter_mut().for_each(|(_, c)| mark_deep(c));
+        }),
+        _ => {}
+    }
+}
+
 fn mark_all_ambiguous(t: &mut Tbl) {
     t.order_ambiguous = true;
     for (_, n) in t.entries.iter_mut() {
@@ -780,6 +960,8 @@ fn mark_ambiguous(got: &mut Tbl, want: &Tbl) {
     }
 }
 
+pub const F21_WHAT: &str = "Item::into_table / into_array_of_tables on a `key = { .. }` / `key = [{..}]` entry parsed from a document: the key keeps its line decoration (blank or comment lines before the entry), which is then printed inside the header brackets - `[\nkey ]` - so the printed document is not valid TOML";
+static KNOWN_F21: std::sync::atomic::AtomicBool = std::sync::atomic::AtomicBool::new(false);
 pub const F18_WHAT: &str = "ArrayOfTables::push when the sections of an earlier element are not in visiting order (interleaved nested arrays of tables, or a section under a dotted-key table): the new `[[header]]` is printed before some of that element's sections, which then belong to the new element (content moves between elements)";
 static KNOWN_F18: std::sync::atomic::AtomicBool = std::sync::atomic::AtomicBool::new(false);
 
@@ -840,6 +1022,10 @@ fn prop_with(t: &mut Tape, st: &mut Stats, probe: bool) -> Result<(), Failure> {
         let before = if probe { has_section_under_dotted(&s.model) } else { false };
         if let Some(c) = step(&mut s, t)? {
             st.class(c);
+            if c == "known.F21" {
+                st.known("F21", F21_WHAT);
+                continue;
+            }
             if c.starts_with("excluded.") {
                 continue;
             }
@@ -870,12 +1056,13 @@ fn prop_with(t: &mut Tape, st: &mut Stats, probe: bool) -> Result<(), Failure> {
 
 pub fn run(args: Args) -> ! {
     let mut rep = Report::new("C08", args.tier, args.seed);
-    rep.rule = "stateful: a generated start document (every line carries a unique comment marker; repeated key-path components spelled consistently) and 1..25 generated edits on containers chosen from the current model: Table insert (new / existing key) / IndexMut assignment / remove / remove_entry / add sub-table / retain / entry().or_insert / sort_values / fmt; InlineTable insert / remove / get_or_insert; Array push / push_formatted / insert / replace / remove / retain / clear; ArrayOfTables push / remove / clear. After every edit: the printed text parses (library and reference), decodes to the edited plain model (values before tables; empty arrays of tables and empty implicit/dotted tables hidden), the structure reads back as the model, and the source text `key = value # marker` of every untouched entry is still in the output verbatim. non-trivial = >= 3 edits over >= 2 containers, or a special pattern (insert after remove, replace of the last array element, table under an implicit/dotted parent, sort, array-of-tables removal); distinct by (document, edits)".into();
+    rep.rule = "stateful: a generated start document (every line carries a unique comment marker; repeated key-path components spelled consistently) and 1..25 generated edits on containers chosen from the current model: Table insert (new / existing key) / IndexMut assignment / remove / remove_entry / add sub-table / retain / entry().or_insert / sort_values / fmt / mutable-indexing probe; Item make_value / into_table / into_array_of_tables on an entry; InlineTable insert / remove / get_or_insert; Array push / push_formatted / insert / replace / remove / retain / clear; ArrayOfTables push / remove / clear. After every edit: the printed text parses (library and reference), decodes to the edited plain model (values before tables; empty arrays of tables and empty implicit/dotted tables hidden), the structure reads back as the model, and the source text `key = value # marker` of every untouched entry is still in the output verbatim. non-trivial = >= 3 edits over >= 2 containers, or a special pattern (insert after remove, replace of the last array element, table under an implicit/dotted parent, sort, array-of-tables removal); distinct by (document, edits)".into();
     rep.assumptions = vec![
         "raw decor setters, set_dotted/set_implicit/set_position are outside the quantifier (property text)".into(),
         "comparison of untouched fragments is modulo CR (CR handling is C03's subject)".into(),
     ];
     KNOWN_F18.store(rep.is_known("F18"), std::sync::atomic::Ordering::Relaxed);
+    KNOWN_F21.store(rep.is_known("F21"), std::sync::atomic::Ordering::Relaxed);
     if let Some(p) = &args.replay {
         let j = super::load_replay(p);
         let tape = super::replay_tape(&j);
@@ -902,7 +1089,7 @@ pub fn run(args: Args) -> ! {
     finish_run(&mut rep, "edits", run);
     let run = run_tape("C08.f18probe", &prop_f18probe, 3000, args.tier.pick(30_000, 400_000), args.seed, workers());
     finish_run(&mut rep, "f18probe", run);
-    for c in ["table.vivify-probe", "inline.vivify-probe", "table.insert-new", "table.insert-existing", "table.remove", "table.add-table", "table.add-table-under-implicit-or-dotted", "table.retain", "table.sort_values", "inline.insert", "inline.remove", "array.push", "array.insert", "array.replace", "array.replace-last", "array.remove", "aot.push", "aot.remove"] {
+    for c in ["entry.make_value", "entry.into_table", "entry.into_array_of_tables", "table.vivify-probe", "inline.vivify-probe", "table.insert-new", "table.insert-existing", "table.remove", "table.add-table", "table.add-table-under-implicit-or-dotted", "table.retain", "table.sort_values", "inline.insert", "inline.remove", "array.push", "array.insert", "array.replace", "array.replace-last", "array.remove", "aot.push", "aot.remove"] {
         rep.require_class(c);
     }
     rep.finish()
